@@ -231,6 +231,10 @@ class FeArray(np.ndarray):
         args = tuple(_Base(arg) for arg in args)
         kwargs = {key: _Base(value) for key, value in kwargs.items()}
         res = super().__array_function__(func, types, args, kwargs)
+        if isinstance(res, tuple):
+            wrapped = [FeArray.__wrap(array, feShape) for array in res]
+            # namedtuple results (np.linalg.eigh, ...) keep their type
+            return type(res)(*wrapped) if hasattr(res, "_fields") else tuple(wrapped)
         return FeArray.__wrap(res, feShape)
 
     @property
@@ -269,6 +273,25 @@ class FeArray(np.ndarray):
             return FeArray.asfearray(np.einsum("...ij,...j->...i", self, other))
         else:
             return self.dot(other)
+
+    def __rmatmul__(self, other) -> FeArrayALike:
+        # `constant @ field`: a plain array is a constant tensor of rank `ndim`. Without this,
+        # ndarray.__matmul__ hands the operands to the matmul gufunc, which stacks matrices over
+        # the leading axes and so reads the (Ne, nPg) axes of a vector field as matrix axes.
+        other = np.asarray(other)
+        ndim1, ndim2 = other.ndim, self._ndim
+        if ndim1 == 1 and ndim2 == 1:
+            return FeArray.asfearray(np.einsum("i,...i->...", other, self))
+        elif ndim1 == 2 and ndim2 == 2:
+            return FeArray.asfearray(np.einsum("ij,...jk->...ik", other, self))
+        elif ndim1 == 1 and ndim2 == 2:
+            return FeArray.asfearray(np.einsum("i,...ij->...j", other, self))
+        elif ndim1 == 2 and ndim2 == 1:
+            return FeArray.asfearray(np.einsum("ij,...j->...i", other, self))
+        else:
+            return FeArray.asfearray(
+                np.einsum(self._dot_subscript(ndim1, ndim2).replace("...", "", 1), other, self)
+            )
 
     @staticmethod
     @lru_cache(maxsize=16)
@@ -346,7 +369,9 @@ class FeArray(np.ndarray):
         _parent = getattr(np.ndarray, _name)
 
         def _reducer(self, *args, **kwargs):
-            res = _parent(self, *args, **kwargs)
+            # run on the plain view: numpy's std / var re-enter the ufunc machinery with
+            # intermediate plain arrays, which would be rank-aligned as constant tensors
+            res = _parent(self.view(np.ndarray), *args, **kwargs)
             axis = kwargs.get("axis", args[0] if args else None)
             if _KeepsFeAxes(axis, self.ndim) and getattr(res, "ndim", 0) >= 2:
                 return res.view(FeArray)
